@@ -37,6 +37,7 @@ structure Inv (s : St) : Prop where
   resKind : ∀ t r, s.res t = some r →
       (r = .failed ↔ s.st t = .failed) ∧ (r = .depFailed ↔ s.st t = .depFailed)
   failedFlag : ∀ t, s.st t = .failed → s.failed = true
+  extStopped : s.ext = true → s.stopped = true
 
 theorem inv_init : Inv c St.init := by
   constructor <;> simp [St.init, TS.rank, TS.terminal, TS.isBuilt]
@@ -59,8 +60,8 @@ theorem fresh_w {s : St} (hi : Inv c s) : s.ws s.nextW = none := by
 /-- the closing tactic: old clause verbatim, or case analysis on the updated indices with all old clauses at hand -/
 macro "inv_close" hi:ident : tactic =>
   `(tactic| (constructor <;> first
-      | exact ($hi).qFresh | exact ($hi).mFresh | exact ($hi).wFresh | exact ($hi).waitBuilding | exact ($hi).bqActive | exact ($hi).bqUnique | exact ($hi).bqWait | exact ($hi).chanPending | exact ($hi).chanUnique | exact ($hi).takenPending | exact ($hi).takenUnique | exact ($hi).chanTaken | exact ($hi).wBuilding | exact ($hi).wBuildingUnique | exact ($hi).notStopped | exact ($hi).starts0 | exact ($hi).starts1 | exact ($hi).depsDone | exact ($hi).finTerm | exact ($hi).nresFin | exact ($hi).resSome | exact ($hi).resKind | exact ($hi).failedFlag
-      | (intros; have := ($hi).qFresh; have := ($hi).mFresh; have := ($hi).wFresh; have := ($hi).waitBuilding; have := ($hi).bqActive; have := ($hi).bqUnique; have := ($hi).bqWait; have := ($hi).chanPending; have := ($hi).chanUnique; have := ($hi).takenPending; have := ($hi).takenUnique; have := ($hi).chanTaken; have := ($hi).wBuilding; have := ($hi).wBuildingUnique; have := ($hi).notStopped; have := ($hi).starts0; have := ($hi).starts1; have := ($hi).depsDone; have := ($hi).finTerm; have := ($hi).nresFin; have := ($hi).resSome; have := ($hi).resKind; have := ($hi).failedFlag
+      | exact ($hi).qFresh | exact ($hi).mFresh | exact ($hi).wFresh | exact ($hi).waitBuilding | exact ($hi).bqActive | exact ($hi).bqUnique | exact ($hi).bqWait | exact ($hi).chanPending | exact ($hi).chanUnique | exact ($hi).takenPending | exact ($hi).takenUnique | exact ($hi).chanTaken | exact ($hi).wBuilding | exact ($hi).wBuildingUnique | exact ($hi).notStopped | exact ($hi).starts0 | exact ($hi).starts1 | exact ($hi).depsDone | exact ($hi).finTerm | exact ($hi).nresFin | exact ($hi).resSome | exact ($hi).resKind | exact ($hi).failedFlag | exact ($hi).extStopped
+      | (intros; have := ($hi).qFresh; have := ($hi).mFresh; have := ($hi).wFresh; have := ($hi).waitBuilding; have := ($hi).bqActive; have := ($hi).bqUnique; have := ($hi).bqWait; have := ($hi).chanPending; have := ($hi).chanUnique; have := ($hi).takenPending; have := ($hi).takenUnique; have := ($hi).chanTaken; have := ($hi).wBuilding; have := ($hi).wBuildingUnique; have := ($hi).notStopped; have := ($hi).starts0; have := ($hi).starts1; have := ($hi).depsDone; have := ($hi).finTerm; have := ($hi).nresFin; have := ($hi).resSome; have := ($hi).resKind; have := ($hi).failedFlag; have := ($hi).extStopped
          simp only [upd, Queuer.live] at * <;> grind [TS.rank, TS.terminal, TS.isBuilt, TS.isBad])))
 
 theorem spawn_inv {s : St} (hi : Inv c s) (t : T) (b f : Bool) (ns : TS)
